@@ -413,6 +413,39 @@ func runC16(c hx.Config) error {
 			o.Count("verdict:" + hx.B01(v))
 		}
 	}
+	// (2b) type-extreme DIVISORS, deterministic: for every pair of integer kinds (uintptr included) the divisor runs over
+	// its kind's min, min+1, min+2, max, max-1, 0, +-1, +-2, +-2^(bits-2) and the value over every such extreme of ANY
+	// kind (and its negation) that the value's kind can hold — so a value that is +-1 times the divisor's minimum
+	// (MinInt64 % MinInt64, uint64(1<<63) against MinInt64, MinInt8 against int16(128), ...) is always among the cases.
+	intAll := append(append([]numKind{}, intKinds...), uptrKind)
+	for _, ka := range intAll {
+		vals := extremeValues(ka, intAll)
+		for _, kb := range intAll {
+			for _, d := range extremesOf(kb) {
+				for _, a := range vals {
+					emitMul(a, d, "direct:extreme", validate.MultipleOf(a.goValue(), d.goValue()))
+				}
+			}
+		}
+	}
+	// ... and through real schemas: MultipleOf / Step take an int64, so every signed extreme (MinInt64 included) is expressible.
+	for _, k := range intKinds {
+		vals := extremeValues(k, intAll)
+		for di, d := range extremeValues(i64, intAll) {
+			for vi, a := range vals {
+				variant, ptrIn := (vi+di)&1, (vi+di)&2 != 0
+				how := fmt.Sprintf("schema:%d:%v:", variant, ptrIn)
+				for _, mm := range []string{"MultipleOf", "Step"} {
+					acc, pm := schemaVerdict(a, variant, mm, d.goValue(), ptrIn)
+					if pm != "" {
+						o.Emit(fmt.Sprintf("c16 mul %s %s #%s", a.token(), d.token(), how+mm+":extreme"), "panic "+pm)
+						continue
+					}
+					emitMul(a, d, how+mm+":extreme", acc)
+				}
+			}
+		}
+	}
 	// (3) through real schemas: value/pointer constructors, value/pointer inputs, every method.
 	n3 := 40000
 	if thorough {
@@ -588,6 +621,79 @@ func runC16(c hx.Config) error {
 		}
 	}
 	return o.Close(map[string]any{"seed": c.Seed, "tier": c.Tier})
+}
+
+// extremesOf: the type-extreme values of an integer kind: min, min+1, min+2, max, max-1, 0, +-1, +-2, +-2^(bits-2), 2^(bits-1) (unsigned).
+func extremesOf(k numKind) []numVal {
+	var out []numVal
+	if k.signed {
+		lo, hi := int64(-1)<<(k.bits-1), int64(1)<<(k.bits-1)-1
+		q := int64(1) << (k.bits - 2)
+		for _, x := range []int64{lo, lo + 1, lo + 2, hi, hi - 1, 0, 1, -1, 2, -2, q, -q} {
+			out = append(out, numVal{k: k, i: x})
+		}
+		return out
+	}
+	hi := uint64(math.MaxUint64)
+	if k.bits < 64 {
+		hi = uint64(1)<<k.bits - 1
+	}
+	h := uint64(1) << (k.bits - 1)
+	for _, x := range []uint64{0, 1, 2, hi, hi - 1, h, h - 1, h + 1, h >> 1} {
+		out = append(out, numVal{k: k, u: x})
+	}
+	return out
+}
+
+// extremeValues: every extreme of every kind in `kinds`, and its negation, that kind k can hold (no duplicates).
+func extremeValues(k numKind, kinds []numKind) []numVal {
+	type sm struct {
+		neg bool
+		mag uint64
+	}
+	seen := map[sm]bool{}
+	var out []numVal
+	add := func(neg bool, mag uint64) {
+		if mag == 0 {
+			neg = false
+		}
+		if seen[sm{neg, mag}] {
+			return
+		}
+		var v numVal
+		if k.signed {
+			lim := uint64(1) << (k.bits - 1) // |min|
+			if (neg && mag > lim) || (!neg && mag > lim-1) {
+				return
+			}
+			v = numVal{k: k, i: int64(mag)}
+			if neg {
+				v.i = int64(-mag) // two's complement: -(1<<63) = MinInt64
+			}
+		} else {
+			if neg || (k.bits < 64 && mag > uint64(1)<<k.bits-1) {
+				return
+			}
+			v = numVal{k: k, u: mag}
+		}
+		seen[sm{neg, mag}] = true
+		out = append(out, v)
+	}
+	for _, kk := range kinds {
+		for _, e := range extremesOf(kk) {
+			mag, neg := e.u, false
+			if kk.signed {
+				neg = e.i < 0
+				mag = uint64(e.i)
+				if neg {
+					mag = -uint64(e.i)
+				}
+			}
+			add(neg, mag)
+			add(!neg, mag)
+		}
+	}
+	return out
 }
 
 // neighbourInt returns a value of kind kb at distance ≤ 1 from a (when representable).
